@@ -404,7 +404,7 @@ func stalledPeerDropped(r *Result, run *sessionRun) {
 	if last.kind == 'E' && last.how == "stall" && !run.peerClosed && !run.serverClosedFirst {
 		// only if the session got as far as the stalling message: every earlier arrival must have been answered
 		if expectedAnswered(run.cfg, run.arrs) == len(run.arrs)-1 {
-			violation(r, "a peer that went silent inside a message was still connected 8 s later although ReadTimeout is set (the deadline did not end the session)", run, "closed by the server at the read deadline", strings.Join(run.trace, ";"))
+			violation(r, "a peer that went silent (inside a message or at a message boundary) was still connected 8 s later although ReadTimeout is set (the deadline did not end the session)", run, "closed by the server at the read deadline", strings.Join(run.trace, ";"))
 		}
 	}
 }
